@@ -3,11 +3,16 @@
 # `vp run --with-repo`, else a scratch worktree), run the check of the property it breaks, and print a catch table.
 # Never touches /repo.
 TIER="${1:-quick}"
+SHARD="${2:-0}"      # rerun_seeds.sh <tier> <i> <n>: only every n-th seed, starting with the i-th (several shards may run side by side,
+NSHARD="${3:-1}"     #                                 each on its own copy of the repository)
 HERE="$(cd "$(dirname "$0")/.." && pwd)"
 if [ -n "${VP_RUN_REPO:-}" ]; then R="$VP_RUN_REPO"; else R=$(mktemp -d /tmp/seedrepo.XXXXXX); rmdir "$R"; git -C /repo worktree add -q --detach "$R" HEAD; trap 'git -C /repo worktree remove --force "$R"' EXIT; fi
 export VERIF_REPO="$R"
 miss=0
+k=0
 for d in "$HERE"/seeded/*/; do
+  k=$((k+1))
+  [ $((k % NSHARD)) = "$SHARD" ] || continue
   id=$(basename "$d")
   prop=$(/venv/bin/python -c "import json,sys; print(json.load(open(sys.argv[1]))['breaks_property'])" "$d/meta.json")
   git -C "$R" checkout -q -- . ; git -C "$R" apply "$d/patch.diff" || { echo "$id NOAPPLY"; continue; }
